@@ -366,7 +366,9 @@ def run(ctx, res):
             res.violate("C20.3:%s:rehash-all" % p,
                         "`%s` reaches %d 'hash every held entry' loop(s) on one path; allowed: %d" % (p, c[1], allowed_ph),
                         span_str(b.span), {"cost": c}, "C20.3 per-operation bound")
-        allowed_pd = 1 if (is_cache_inherent and nm in EVICTING) else 0
+        # loops of class PD retire one entry per hash (checked per loop), so any number of them in sequence still computes one hash
+        # per departing entry; nesting is class BAD.  (The count used to be capped at 1: a false alarm on an eviction done in two steps.)
+        allowed_pd = 99 if (is_cache_inherent and nm in EVICTING) else 0
         if c[2] > allowed_pd:
             ok = False
             res.violate("C20.3:%s:hash-per-departing" % p,
